@@ -9,7 +9,7 @@ import json, shutil
 
 from hypothesis import strategies as st
 
-from . import runner, core, interp
+from . import runner, core, interp, c01
 from .core import Fail, h64
 from .gen import G
 from .lang import *  # noqa
@@ -27,7 +27,7 @@ class B:
         # only its draw-free helpers (print_value, fresh) are used; values of type ?[n]T are printed
         # through #is_variant/#unwrap instead of a `[n]T =>` switch arm (a listed C01 finding: the
         # type checker panics on such arms), which is not this property's concern
-        self.util = G(draw, {"avoid": {"switch-array-arm"}})
+        self.util = G(draw, {"avoid": c01.current_avoid()})
 
     def int(self, lo, hi):
         return self.draw(st.integers(lo, hi))
@@ -286,7 +286,7 @@ def abi_sweep_programs():
     for gi, gt in enumerate(GUARD_TYS):
         p = Program()
         p.types += [E, Er]
-        util = G(None, {"avoid": {"switch-array-arm"}})
+        util = G(None, {"avoid": c01.current_avoid()})
         body = []
         k = 0
         for X in sums:
